@@ -22,13 +22,25 @@ def mime_of(t):
 
 def write(t, doc) -> bytes:
     """Serialise `doc` (plain data for DATA_TYPES, table for csv, element spec for xml/html) with an independent writer."""
-    if t in ("json", "json5"):
-        return json.dumps(doc).encode("utf-8")
+    # Each format is written in several of its own dialects (chosen deterministically from the document), so that a
+    # loader path that only handles "the JSON subset" of JSON5, block-style YAML or XML plists is not the only one driven.
+    variant = _variant(doc)
+    if t == "json":
+        return json.dumps(doc, indent=[None, None, 1][variant % 3]).encode("utf-8")
+    if t == "json5":
+        if variant % 2 == 0:
+            return json.dumps(doc).encode("utf-8")
+        import json5
+        # genuine JSON5 syntax: unquoted keys, trailing commas (+ a comment and a single-quoted string when possible)
+        text = json5.dumps(doc, indent=[None, 1][variant % 4 // 2], quote_keys=False, trailing_commas=True)
+        if variant % 3 == 0:
+            text = "// written by the harness\n" + text + "\n/* end */\n"
+        return text.encode("utf-8")
     if t == "yaml":
         import yaml
-        return yaml.safe_dump(doc, default_flow_style=False, allow_unicode=True).encode("utf-8")
+        return yaml.safe_dump(doc, default_flow_style=[False, False, True, None][variant % 4], allow_unicode=True).encode("utf-8")
     if t == "plist":
-        return plistlib.dumps(doc)
+        return plistlib.dumps(doc, fmt=plistlib.FMT_BINARY if variant % 3 == 2 else plistlib.FMT_XML)
     if t == "pickle":
         return pickle.dumps(doc, protocol=2)
     if t == "csv":
@@ -38,6 +50,11 @@ def write(t, doc) -> bytes:
     if t in ("xml", "html"):
         return families.xml_text(doc).encode("utf-8")
     raise ValueError(t)
+
+
+def _variant(doc) -> int:
+    import zlib
+    return zlib.crc32(json.dumps(doc, sort_keys=True, default=str).encode("utf-8"))
 
 
 COMMON = gen.Profile("common", strings="alpha", bool_with_01=False, numeric_strings=False, none=False, big_ints=False, floats=True,
